@@ -178,6 +178,11 @@ def c_arrays(ctx, case):
     a = float(m.score_using_array(model_arg(case), arrays))
     b = float(m.score(model_arg(case), stats))
     ctx.close(a, b, "score_using_array == score(acc_stats)", rtol=1e-10, atol=1e-13)
+    # one probe handed over as a bare (n_frames, n_features) array: an array of frames
+    bare = float(m.score_using_array(model_arg(case), np.array(arrays[0], dtype=float)))
+    b0 = float(m.score(model_arg(case), [stats[0]]))
+    ctx.close(bare, b0, "score_using_array(model, X) for a bare 2-D X == score(acc_stats(X))", rtol=1e-8,
+              atol=1e-10 * (abs(b0) + abs(b)) + 1e-13)
     # independent route as well: reference statistics + reference score
     p = case["ubm"]
     rs = []
